@@ -24,7 +24,7 @@ RULE = (
 )
 ASSUMPTIONS = ["strings the parser rejects are outside the quantifier (counted as rejected)", "generation equality is sampled (about 10% of generable molecules), with targets of a few units"]
 CASE_TIMEOUT = 900
-FLOORS = {"quick": {"roundtrips": 3000, "generation_pairs": 100, "distinct_nontrivial": 1500}, "thorough": {"roundtrips": 40000, "generation_pairs": 1500}}
+FLOORS = {"quick": {"roundtrips": 3000, "generation_pairs": 100, "distinct_nontrivial": 1500}, "thorough": {"roundtrips": 40000, "generation_pairs": 1000}}
 ERASE = re.compile(r"\|[^|]*\|")
 
 
